@@ -42,6 +42,7 @@ type runSpec struct {
 	Emit   bool   `json:"emit"`   // pass a signalsFromStep channel
 	As     string `json:"as"`     // run ID to use instead of ID (a run ID used again, or - with Dup - while it is in flight)
 	Dup    bool   `json:"dup"`    // As names a run ID that another caller of the same phase uses at the same time
+	Step   string `json:"step"`   // with Echo > 0: "" = the echo step, "opt" = the all-optional step, "nosuch" = a step the plugin does not have
 	After  string `json:"after"`  // the step of this run finishes only when the caller of run After has returned (a slow step)
 }
 
@@ -218,7 +219,7 @@ func (w *world) plugin() *schema.CallableSchema {
 			return "success", stepOut{Message: "hello " + in.Name}
 		},
 	)
-	return schema.NewCallableSchema(step, echoStep())
+	return schema.NewCallableSchema(step, echoStep(), optStep())
 }
 
 // ------------------------------------------------------------------ hook classification
@@ -397,8 +398,14 @@ func (w *world) spawnCaller(id string) {
 		if rs.Echo > 0 {
 			stepID = "echo"
 			ins := echoInputs()
+			switch rs.Step {
+			case "opt":
+				stepID, ins = "opt", optInputs()
+			case "nosuch":
+				stepID = "nosuch"
+			}
 			payload = ins[(rs.Echo-1)%len(ins)]
-			x := inProcess(w.plug, id+"-inprocess", payload)
+			x := inProcess(w.plug, id+"-inprocess", stepID, payload)
 			want = &x
 		}
 		runID := id
